@@ -288,11 +288,14 @@ impl Re {
 }
 
 pub const ALPHA: &[char] = &['a', 'b', 'c', '0', '1', 'é', '漢'];
+pub const SPACE_LIKE: &[char] = &['\u{a0}', '\u{3000}', '\u{2003}', '\u{1680}'];
 
 fn gen_atom(ch: &mut Choices, flags: &AlFlags, depth: usize) -> Re {
     match ch.weighted(&[10, 3, 3, 2, 2, 2, 1, 1]) {
         0 => Re::Lit {
-            c: *ch.choose(ALPHA),
+            // 1/10: a character that is Unicode White_Space but not Pattern_White_Space - not a
+            // separator of the format, so an ordinary literal wherever it stands (also last)
+            c: if ch.chance(1, 10) { *ch.choose(SPACE_LIKE) } else { *ch.choose(ALPHA) },
             esc: false,
         },
         1 => {
